@@ -223,3 +223,44 @@ theorem views_spec {W : World V} (LL : LowerLaws W) {P : Parser V} (wf : WF W P)
         · simp only [e, if_false]; exact ih2 k hk
 
 end Utv.C05
+
+namespace Utv.C05
+open Spec
+variable {V : Type}
+
+/-- keys of the two views: output names / attribute names of fields, or kept unknown keys — nothing else -/
+theorem views_keys {W : World V} (LL : LowerLaws W) {P : Parser V} (wf : WF W P) (o : Opts V)
+    (r : List (Key × V)) (hok : ResultKeysOk W P r) :
+    (∀ k, anyAccepts W P k = true → (∀ kf ∈ P.fields, kf.2.name ≠ k) → dget k (views {} W P o r).1 = none)
+    ∧ (∀ k, anyAccepts W P k = true → (∀ kf ∈ P.fields, kf.2.attname ≠ k) → dget k (views {} W P o r).2 = none) := by
+  rw [views_eq]
+  induction r using Utv.List.rev_ind with
+  | nil => exact ⟨fun _ _ _ => rfl, fun _ _ _ => rfl⟩
+  | snoc l kv ih =>
+    have hokl : ResultKeysOk W P l := fun k hk => hok k (by rw [List.map_append]; exact List.mem_append_left _ hk)
+    obtain ⟨ih1, ih2⟩ := ih hokl
+    rw [List.foldl_append]
+    simp only [List.foldl_cons, List.foldl_nil]
+    rcases hok kv.1 (by simp) with ⟨kf0, hf0, hname⟩ | hrej
+    · have hgf : getField W P kv.1 = some kf0.2 := by rw [← hname]; exact getField_name LL wf hf0
+      rw [viewStep_some o _ hgf]
+      constructor
+      · intro k hk hn
+        have hne : ¬ kv.1 = k := by rw [← hname]; exact hn kf0 hf0
+        simp only
+        split
+        · exact ih1 k hk hn
+        · rw [dget_dset, if_neg hne]; exact ih1 k hk hn
+      · intro k hk hn
+        simp only
+        rw [dget_dset, if_neg (hn kf0 hf0)]; exact ih2 k hk hn
+    · have hgf : getField W P kv.1 = none := by
+        rw [getField_none_iff LL wf]; exact (anyAccepts_false_iff W P kv.1).1 hrej
+      rw [viewStep_none o _ hgf]
+      have hne : ∀ k, anyAccepts W P k = true → ¬ kv.1 = k := by
+        intro k hk e; rw [e, hk] at hrej; cases hrej
+      constructor
+      · intro k hk hn; simp only; rw [dget_dset, if_neg (hne k hk)]; exact ih1 k hk hn
+      · intro k hk hn; simp only; rw [dget_dset, if_neg (hne k hk)]; exact ih2 k hk hn
+
+end Utv.C05
